@@ -179,12 +179,12 @@ pub(crate) mod shadow {
                 assert!(TOK_N < CAP, "shadow token capacity");
                 #[cfg(debug_assertions)]
                 {
-                    assert!(usize::from(start) <= SRC_LEN, "Token char offset out of bounds");
+                    assert!(usize::from(start) <= SRC_LEN, "C01/C02/C03: Token char offset out of bounds (add_token debug assertion)");
                     if TOK_N > 0 {
-                        assert!(byte_offset >= TOK[TOK_N - 1].assume_init().byte_offset, "Token byte offset before previous token byte offset");
+                        assert!(byte_offset >= TOK[TOK_N - 1].assume_init().byte_offset, "C01/C02: Token byte offset before previous token byte offset (add_token debug assertion)");
                     }
-                    assert!((line.0 as usize) < LINE_N, "Line index out of bounds");
-                    assert!(byte_offset >= LINE[line.0 as usize].assume_init().byte_offset, "Token byte offset before line byte offset");
+                    assert!((line.0 as usize) < LINE_N, "C01/C04: Line index out of bounds (add_token debug assertion)");
+                    assert!(byte_offset >= LINE[line.0 as usize].assume_init().byte_offset, "C01/C02/C04: Token byte offset before line byte offset (add_token debug assertion)");
                 }
                 TOK[TOK_N] = std::mem::MaybeUninit::new(TokenInfo { channel, token_type, byte_offset, start, line, payload });
                 TOK_N += 1;
@@ -200,10 +200,10 @@ pub(crate) mod shadow {
                 #[cfg(debug_assertions)]
                 {
                     if at > 0 {
-                        assert!(byte_offset >= TOK[at - 1].assume_init().byte_offset, "Token byte offset before previous token byte offset");
+                        assert!(byte_offset >= TOK[at - 1].assume_init().byte_offset, "C01/C02: Token byte offset before previous token byte offset (add_token debug assertion)");
                     }
-                    assert!((line.0 as usize) < LINE_N, "Line index out of bounds");
-                    assert!(byte_offset >= LINE[line.0 as usize].assume_init().byte_offset, "Token byte offset before line byte offset");
+                    assert!((line.0 as usize) < LINE_N, "C01/C04: Line index out of bounds (add_token debug assertion)");
+                    assert!(byte_offset >= LINE[line.0 as usize].assume_init().byte_offset, "C01/C02/C04: Token byte offset before line byte offset (add_token debug assertion)");
                 }
                 assert!(TOK_N <= SCAN_CAP - 1, "shadow scan capacity");
                 let mut i = SCAN_CAP - 1;
